@@ -14,9 +14,10 @@ package main
 //	                       `windowSize := defaultReplayWindowSize` and
 //	                       `if cfg != nil && cfg.ReplayWindow > 0 { windowSize = cfg.ReplayWindow }`
 //	replayRxReadFromOrder / replayRxRecordOrder
-//	                       order of the first occurrences of "decrypt", "epoch", "check" in
-//	                       Conn.ReadFrom / Conn.readRecordOrCCS (decrypt call, epoch
-//	                       comparison with c.readEpoch, replayWindow.check call)
+//	                       order of the first occurrences of "decrypt", "epoch<", "epoch>",
+//	                       "check" in Conn.ReadFrom / Conn.readRecordOrCCS (decrypt call, the
+//	                       comparisons `epoch < c.readEpoch` (old epoch: drop) and
+//	                       `epoch > c.readEpoch` (new epoch: new window), replayWindow.check call)
 //	replayRxReadFromDecryptFail / replayRxRecordDecryptFail
 //	                       "discard" when the `if err != nil` after the decrypt call only
 //	                       `continue`s, "fatal" when it returns through setErrorLocked,
@@ -254,7 +255,7 @@ func emitReplay(e *emitter, p *pkg) {
 					}
 				case *ast.BinaryExpr:
 					if (t.Op == token.LSS || t.Op == token.GTR) && p.src(t.X) == "epoch" && p.src(t.Y) == "c.readEpoch" {
-						evs = append(evs, ev{t.Pos(), "epoch"})
+						evs = append(evs, ev{t.Pos(), "epoch" + t.Op.String()})
 					}
 				case *ast.BlockStmt:
 					// `x, y, err := c.in.decrypt(record)` followed by `if err != nil { ... }`
